@@ -46,6 +46,9 @@ var c12PerDay = [][]string{
 
 var c12Period = [][]string{
 	{"report", "quantity", "-e", "@END@"},
+	{"bal", "--collapse"},
+	{"bal", "--collapse-last"},
+	{"bal", "--collapse", "-s", "@X@"},
 	{"bal"},
 	{"bal", "-s", "@X@"},
 	{"report", "totals"},
@@ -56,6 +59,27 @@ var c12Period = [][]string{
 func c12Maps(cmd []string, out string) map[string][]*big.Rat {
 	m := map[string][]*big.Rat{}
 	switch {
+	case cmd[0] == "bal" && len(cmd) > 1 && strings.HasPrefix(cmd[1], "--collapse"):
+		// collapse modes join path segments, so rows of parts and whole need not carry the same labels;
+		// what composes is the sum of the top-level rows (and the grand total)
+		b := vReadBalance(out, len(cmd) > 2)
+		sum := new(big.Rat)
+		for _, r := range b.Rows {
+			if r.Depth == 0 {
+				sum.Add(sum, vNum(r.Val))
+			}
+		}
+		n := 0
+		for _, r := range b.Rows {
+			if r.Depth == 0 {
+				n++
+			}
+		}
+		m["\x00top-level-sum"] = []*big.Rat{sum}
+		m["\x00top-level-rows"] = []*big.Rat{big.NewRat(int64(n), 1)} // only used for the tolerance
+		if b.HasTotal {
+			m["\x00total"] = []*big.Rat{vNum(b.Total)}
+		}
 	case cmd[0] == "bal":
 		b := vReadBalance(out, len(cmd) > 1)
 		for _, r := range b.Rows {
@@ -177,6 +201,13 @@ func checkC12(c c12Case, ctx *vCtx) *vFailure {
 			if len(got) != len(sum) {
 				return vFailf("%v: the concatenated log (%d blocks) shows %d names, its parts together %d\nwhole: %v\nparts: %v", subst(cmd), k+1, len(got), len(sum), vSortedKeys(got), vSortedKeys(sum))
 			}
+			// the number of top-level rows is not additive (the same category may occur in several parts)
+			extraRows := int64(0)
+			if v, ok := sum["\x00top-level-rows"]; ok {
+				extraRows = v[0].Num().Int64() + got["\x00top-level-rows"][0].Num().Int64()
+				delete(sum, "\x00top-level-rows")
+				delete(got, "\x00top-level-rows")
+			}
 			for name, vals := range sum {
 				g, ok := got[name]
 				if !ok {
@@ -188,6 +219,9 @@ func checkC12(c c12Case, ctx *vCtx) *vFailure {
 						// half a cent per printed figure + float64 resolution at this magnitude
 						tol = vRatMul(big.NewRat(int64(nparts[name])+1, 2), vCent)
 						tol.Add(tol, vRatMul(big.NewRat(int64(nparts[name])+1, 1000000000000000), vRatAbs(vals[i])))
+						if name == "\x00top-level-sum" { // a sum of that many printed figures
+							tol.Add(tol, vRatMul(big.NewRat(extraRows, 2), vCent))
+						}
 					}
 					if vRatAbs(vRatSub(g[i], vals[i])).Cmp(tol) > 0 {
 						return vFailf("%v: %q: the concatenated log (%d blocks) shows %s, the parts sum to %s", subst(cmd), name, k+1, g[i].FloatString(2), vals[i].FloatString(2))
@@ -312,7 +346,7 @@ func init() { vRegister("C12", "c12.stateful", checkC12) }
 
 func TestVerifC12Stateful(t *testing.T) {
 	vRapid(t, "C12", "c12.stateful",
-		"rapid state machine: actions append a fresh day, a day with an already used date, an empty day, a permutation of an earlier day, or a block of 2-3 days, to a history of up to 8 (quick) / 20 (thorough) blocks over a random book; after every step the 10 per-day reports (3 of them under a fixed -b/-e period) of the concatenated log must equal the concatenation of the parts' reports byte for byte and the 5 period reports the element-wise sum of the parts; non-trivial = >=3 blocks with a repeated date, an empty day or a permuted day",
+		"rapid state machine: actions append a fresh day, a day with an already used date, an empty day, a permutation of an earlier day, or a block of 2-3 days, to a history of up to 8 (quick) / 20 (thorough) blocks over a random book; after every step the 10 per-day reports (3 of them under a fixed -b/-e period) of the concatenated log must equal the concatenation of the parts' reports byte for byte and the 8 period reports the element-wise sum (collapse modes: the sum of the top-level rows) of the parts; non-trivial = >=3 blocks with a repeated date, an empty day or a permuted day",
 		vBudget(800, 8000), genC12, checkC12)
 }
 
